@@ -378,17 +378,18 @@ def main(tier, seed, only=None):
         for s in STRATEGIES if thorough else ["reduced", "baseline"]:
             for p in pairs[: (len(pairs) if thorough else 2)]:
                 for mth in ([0, 9, 14] if thorough else [0, 12]):
-                    couples.append(dict(country=c, strategy=s, animals=p, month=mth, light=not thorough))
+                    # symbolic pregnancy state for both herds of a pair forks heavily (several cases ran > 20 min): only one pair per strategy in the thorough tier
+                    couples.append(dict(country=c, strategy=s, animals=p, month=mth, light=not (thorough and c == countries[0] and p is pairs[0] and mth == 9)))
                     if mth != 0:
                         couples.append(dict(country=c, strategy=s, animals=p, month=mth, light=True, no_calves=True))
             # two meat herds of one size class compete for the same labour hours
             for size in ("small", "medium", "large"):
                 same = [a.animal_type for a in animals if a.animal_size == size and a.animal_function == "meat"][:2]
                 if len(same) == 2:
-                    couples.append(dict(country=c, strategy=s, animals=same, month=3, light=not thorough))
+                    couples.append(dict(country=c, strategy=s, animals=same, month=3, light=True))
         if thorough and pairs:
             third = [a.animal_type for a in animals if a.animal_size == "large" and a.animal_type not in pairs[0]][:1]
-            couples.append(dict(country=c, strategy="reduced", animals=pairs[0] + third, month=12))
+            couples.append(dict(country=c, strategy="reduced", animals=pairs[0] + third, month=12, light=True))
     stubs = STUBS + ["AnimalPopulation.feed_animals replaced by a nondeterministic stub: animals fed = arbitrary value in [0, herd] (decided by C07)",
                      "month body of main() lifted from the AST of the current source and compiled as month_step(...)", "stdout silenced"]
     inv = ["representation invariant of the start state: head count, last slaughter, pregnant totals, baseline slaughter >= 0 (<= 1e12); 0 <= fed <= herd",
